@@ -23,7 +23,7 @@ from .sym import (VInt, VBool, VBytes, VSeq, VHex, VOpaque, Unsupported, Chunk,
 from .axioms import Axioms, pow_term
 from .seqabs import AbsSolver
 
-FEAS_TIMEOUT_MS = 3000
+FEAS_TIMEOUT_MS = 1500
 
 
 class PyRaise(Exception):
@@ -61,6 +61,7 @@ class NeedInvariant(Unsupported):
 class Path:
     def __init__(self, ctx, kind, value=None, exc=None):
         self.pc = list(ctx.pc)
+        self.tfacts = list(ctx.tfacts)
         self.axioms = list(ctx.ax_inst)
         self.kind = kind          # 'return' | 'raise' | 'stop'
         self.value = value
@@ -80,15 +81,28 @@ class Oblig:
 
 
 class Ctx:
-    def __init__(self, decisions=(), base_pc=(), parent=None, opts=None):
+    def __init__(self, decisions=(), base_pc=(), parent=None, opts=None, base_tfacts=()):
+        self.tfacts = []
         self.dec = list(decisions)
         self.pos = 0
         self.trace = []
         self.alts = []
         self.pc = []
-        self.ax = Axioms()
-        self.ax_inst = []
-        self.solver = AbsSolver(FEAS_TIMEOUT_MS)
+        self.shared = parent is not None and parent.solver is not None
+        if self.shared:
+            # sub-exploration (contract clause / ghost definition): reuse the parent's solver state
+            self.solver = parent.solver
+            self.ax = parent.ax
+            self.ax_inst = parent.ax_inst
+            self.solver.push()
+            self.pc = list(parent.pc)
+            self.tfacts = list(parent.tfacts)
+        else:
+            self.ax = Axioms()
+            self.ax.extra_rules = list((opts or {}).get("extra_rules", []))
+            self.ax.fuel = (opts or {}).get("fuel", 1)
+            self.ax_inst = []
+            self.solver = AbsSolver(FEAS_TIMEOUT_MS)
         self.obligs = []
         self.notes = {"inlined": set(), "unrolled": {}, "native": set(), "assumed_contracts": set()}
         self.counters = {}
@@ -97,10 +111,26 @@ class Ctx:
         self.spec_apps = parent.spec_apps if parent is not None else {}
         self.inputs = parent.inputs if parent is not None else []
         if parent is not None:
-            self.ax.extra_rules = parent.ax.extra_rules
             self.counters = parent.counters  # share so fresh names never clash
-        for f in base_pc:
-            self.assume(f)
+        if not self.shared:
+            for f in base_tfacts:
+                self.assume_type(f)
+            for f in base_pc:
+                self.assume(f)
+        self.n_base_tfacts = len(self.tfacts)
+        self.n_base_pc = len(self.pc)
+
+    def close(self):
+        if self.shared:
+            self.solver.pop()
+
+    def assume_type(self, z):
+        """Type invariant of a value (e.g. a bytes element is in range(256)): kept apart from the path condition."""
+        z = z3.simplify(z)
+        if z3.is_true(z):
+            return
+        self.tfacts.append(z)
+        self.solver.add_fact(z)
 
     # ---- fresh symbols
     def fresh_name(self, base):
@@ -135,14 +165,12 @@ class Ctx:
             raise DeadPath()
         self.pc.append(z)
         self.solver.add(z)
-        for inst in self.ax.feed([z]):
-            self.ax_inst.append(inst)
-            self.solver.add(inst)
+        self.feed_axioms(z)
 
     def feed_axioms(self, z):
         for inst in self.ax.feed([z]):
             self.ax_inst.append(inst)
-            self.solver.add(inst)
+            self.solver.add_fact(inst)
 
     def feasible(self, z):
         self.feed_axioms(z)
@@ -205,17 +233,32 @@ class Ctx:
             goal = goal.z
         if isinstance(goal, bool):
             goal = z3.BoolVal(goal)
-        self.obligs.append(Oblig(name, list(self.pc), goal, meta))
+        o = Oblig(name, list(self.pc) + list(self.tfacts), goal, meta)
+        # try it right here on the live incremental solver (sequence abstraction): unsat = discharged
+        o.inline = None
+        g = z3.simplify(goal)
+        if z3.is_true(g):
+            o.inline = "simplifier"
+        else:
+            import time as _t
+            t0 = _t.time()
+            try:
+                if self.valid(g):
+                    o.inline = "z3-5.1.0(api, incremental, EUF+LIA abstraction of sequences)"
+            except NotImplementedError:
+                pass
+            o.inline_secs = _t.time() - t0
+        self.obligs.append(o)
 
 
-def explore(run, base_pc=(), parent=None, opts=None, max_paths=4000):
+def explore(run, base_pc=(), parent=None, opts=None, max_paths=4000, base_tfacts=()):
     """run(ctx) -> value.  Returns list[Path]."""
     work = [[]]
     paths = []
     while work:
         dec = work.pop()
         try:
-            ctx = Ctx(dec, base_pc, parent, opts)
+            ctx = Ctx(dec, base_pc, parent, opts, base_tfacts)
         except DeadPath:
             continue
         try:
@@ -226,7 +269,10 @@ def explore(run, base_pc=(), parent=None, opts=None, max_paths=4000):
         except StopPath:
             paths.append(Path(ctx, "stop"))
         except DeadPath:
-            pass
+            if ctx.obligs:
+                paths.append(Path(ctx, "dead"))   # obligations emitted before the path died still count
+        finally:
+            ctx.close()
         work.extend(ctx.alts)
         if len(paths) > max_paths:
             raise Unsupported(f"more than {max_paths} paths")
@@ -640,7 +686,7 @@ class Interp:
             return it.sym_iter(self, node)
         raise Unsupported(f"symbolic iteration over {type(it).__name__}")
 
-    # cut-point loops are implemented in loops.py (mixed in below)
+    # cut-point loops are implemented in loops.py (mixed in at import of pyvc.loops)
 
     # ------------------------------------------------------------------ expressions
     def eval(self, e, fr):
